@@ -1370,6 +1370,102 @@ class _Estimator:
                 return False
         return True
 
+    def _same_index(self, a, b):
+        """The index names `a` (at its statement) and `b` denote one value in one
+        pass: same binding by same_in_pass, or both are the target of ONE `for`
+        statement whose body holds both uses and nothing else binds the name."""
+        if self.same_in_pass(a, b):
+            return True
+        fi = self.fi
+        if not (isinstance(a, ast.Name) and isinstance(b, ast.Name)) or a.id != b.id:
+            return False
+        try:
+            da, db = fi.defs_of_use(a), fi.defs_of_use(b)
+        except Exception:
+            return False
+        if da != db or len(da) != 1:
+            return False
+        L = next(iter(da))
+        return isinstance(L, ast.For) and isinstance(L.target, ast.Name) and L.target.id == a.id and \
+            fi._within(fi.stmt(a), L) and fi._within(fi.stmt(b), L)
+
+    def proxies(self):
+        """Scalar locals that hold ONE element of the running sums while an
+        inner loop runs (register promotion of R[p]):
+        {name: (index text, load statement, write-back statement, [update statements])}.
+        S is such a proxy iff
+          * its bindings are one load  S = R[p]  and otherwise plain (augmented)
+            assignments to S - the updates, whose FORM is judged like that of a
+            store into R[p] by C04.D3.mle-running-sums;
+          * the load dominates every update and the one write-back  R[p] = S,  with
+            p the same binding at both;
+          * no update reaches the return, or the load again, without passing
+            the write-back (the updates are not lost);
+          * while S is live (load .. write-back) R is touched only as R[q] with
+            q provably different from p, and S is read only there.
+        Then S equals what R[p] would hold without the promotion at every
+        statement between the load and the write-back."""
+        R = self.R
+        if R is None:
+            return {}
+        cache = self.__dict__.setdefault('_proxy_cache', {})
+        if R in cache:
+            return cache[R]
+        out = cache[R] = {}
+        from ..cfg import header_exprs, stmt_defs
+        fi, cfg, par = self.fi, self.fi.cfg, self.mod.parent
+        nodes = [n for n in cfg.nodes if isinstance(n, ast.AST)]
+        loads = {}
+        for n in nodes:
+            if isinstance(n, ast.Assign) and len(n.targets) == 1 and isinstance(n.targets[0], ast.Name) and \
+                    _elem(n.value, R) is not None and isinstance(n.value.slice, ast.Name):
+                loads.setdefault(n.targets[0].id, []).append(n)
+        for S, lds in sorted(loads.items()):
+            if len(lds) != 1 or S in (self.X, R, self.P) or S in self.two or S in self.one:
+                continue
+            ld = lds[0]
+            pn = ld.value.slice
+            updates = [n for n in nodes if n is not ld and S in stmt_defs(n)]
+            if not updates or self.ret is None:
+                continue                # a pure hoist is a temporary: the expansion reads through it
+            if not all((isinstance(d, ast.AugAssign) and isinstance(d.target, ast.Name)) or
+                       (isinstance(d, ast.Assign) and len(d.targets) == 1 and isinstance(d.targets[0], ast.Name)) for d in updates):
+                continue
+            wbs = [s for s, t in self.stores(R) if isinstance(s, ast.Assign) and len(s.targets) == 1 and isinstance(s.value, ast.Name)
+                   and s.value.id == S and _elem(t, R) is not None and isinstance(t.slice, ast.Name) and t.slice.id == pn.id]
+            if len(wbs) != 1:
+                continue
+            wb = wbs[0]
+            if not self._same_index(pn, wb.targets[0].slice):
+                continue
+            if not all(cfg.dominates(ld, x) for x in updates + [wb]):
+                continue
+            if any(cfg.reachable(d, self.ret, avoiding=[wb]) or cfg.reachable(d, ld, avoiding=[wb]) for d in updates):
+                continue
+            live = [n for n in nodes if n is not ld and n is not wb and cfg.reachable(ld, n, avoiding=[wb])]
+            ok = True
+            for n in live:
+                for e in header_exprs(n):
+                    for x in ast.walk(e):
+                        if not (isinstance(x, ast.Name) and x.id == R):
+                            continue
+                        sub = par.get(x)
+                        if not (isinstance(sub, ast.Subscript) and sub.value is x and isinstance(sub.slice, ast.Name) and
+                                _distinct_indices(self, sub.slice.id, pn.id, n) is True):
+                            ok = False
+            liveset = {id(n) for n in live} | {id(wb)}
+            for n in nodes:
+                if id(n) in liveset:
+                    continue
+                for e in header_exprs(n):
+                    if any(isinstance(x, ast.Name) and x.id == S and isinstance(x.ctx, ast.Load) for x in ast.walk(e)):
+                        ok = False
+                if isinstance(n, ast.AugAssign) and isinstance(n.target, ast.Name) and n.target.id == S:
+                    ok = False
+            if ok:
+                out[S] = (pn.id, ld, wb, updates)
+        return out
+
 
 def _d7_result(est):
     """Locate X and R from the returned pair and decide its form."""
@@ -1713,15 +1809,27 @@ def _d7_running(est, cells):
 
     def stores_of(cellset):
         return [s for s, p, r in xs if (p, r) in cellset]
+    # a scalar that holds R[p] while the inner loop runs (loaded before, written back after): its updates ARE the updates of R[p]
+    prox = est.proxies()
+    writebacks = {id(pr[2]) for pr in prox.values()}
+    items = []
     for s, t in est.stores(R):
-        el = _elem(t, R)
+        if id(s) in writebacks:
+            o.check(True, rule, s, 'write-back of the scalar that carries R[p] through the inner loop (loaded from R[p] before it, '
+                    'R[p] itself untouched meanwhile)', '', construct='%s: running sum of a row carried in a scalar and written back' % q)
+            continue
+        items.append((s, _elem(t, R), None))
+    for S, pr in sorted(prox.items()):
+        items += [(d, (R, pr[0]), S) for d in pr[3]]
+    for s, el, S in items:
         leaves = None
         if el is not None:
             if isinstance(s, ast.AugAssign) and isinstance(s.op, (ast.Add, ast.Sub)):
                 leaves = _signed_leaves(s.value, 1 if isinstance(s.op, ast.Add) else -1)
             elif isinstance(s, ast.Assign) and len(s.targets) == 1:
                 leaves = _signed_leaves(s.value)
-                own = [k for k, (sg, x) in enumerate(leaves) if sg > 0 and _elem(x, R) is not None and _elem(x, R)[1] == el[1]]
+                own = [k for k, (sg, x) in enumerate(leaves) if sg > 0 and (
+                    (_elem(x, R) is not None and _elem(x, R)[1] == el[1]) or (S is not None and isinstance(x, ast.Name) and x.id == S))]
                 if len(own) == 1:
                     leaves.pop(own[0])
                 else:
@@ -1930,6 +2038,9 @@ class _Signs:
         """('X', p, q) / ('C', p, q) / ('R', p) / ('Crs', p) for an element of
         the iterate, the counts, the running sums, the row sums of the counts."""
         est, fi = self.est, self.fi
+        if isinstance(e, ast.Name):
+            pr = est.proxies().get(e.id)    # the scalar that carries R[p] through the inner loop (read only while it does)
+            return ('R', pr[0]) if pr is not None else None
         if isinstance(e, ast.Subscript):
             if isinstance(e.slice, ast.Tuple) and len(e.slice.elts) == 2 and all(_plain_index(i) for i in e.slice.elts):
                 p, q = u(e.slice.elts[0]), u(e.slice.elts[1])
